@@ -18,6 +18,8 @@ import (
 	"encoding/json"
 	"fmt"
 	"sort"
+	"strconv"
+	"strings"
 
 	. "verifharness/vhlib"
 )
@@ -333,4 +335,27 @@ func svcGridPairs() [][2]string {
 	}
 	sort.SliceStable(out, func(a, b int) bool { return false })
 	return out
+}
+
+// encEntries: wire form of a list of entries for the driver op `svc`.
+func encEntries(l []svcEntry) string {
+	optL := func(p *[]string) string {
+		if p == nil {
+			return "-"
+		}
+		return "=" + strings.Join(*p, ",")
+	}
+	optI := func(p *int) string {
+		if p == nil {
+			return "-"
+		}
+		return "=" + strconv.Itoa(*p)
+	}
+	kind := map[string]string{"L4PortSetServiceEntry": "l4", "ICMPTypeServiceEntry": "icmp", "IPProtocolServiceEntry": "ipproto"}
+	var out []string
+	for _, e := range l {
+		out = append(out, strings.Join([]string{e.Id, kind[e.RType], e.L4Proto, optL(e.Src), optL(e.Dst), e.ICMP, optI(e.Type), optI(e.Code),
+			strconv.Itoa(e.ProtoNum)}, sUS))
+	}
+	return strings.Join(out, sGS)
 }
